@@ -19,3 +19,14 @@ package pkcs12
 //@ (func getSafeContents sweep split-returns
 //@   (ghost-havoc hmac.last hmac.eqs hmac.a hmac.b)
 //@   (ensures gated (=> (isnil err) (bvugt (ghost hmac.eqs) (old (ghost hmac.eqs))))))
+
+// RFC 7292 B.2 steps 2 and 3: the salt / password string is the pattern repeated up to a whole number of v-byte blocks
+// (callers pass v = 64, the block size of SHA-1)
+//@ (func fillWithRepeats
+//@   (requires block (= v 64))
+//@   (requires size (bvslt (len pattern) #x0000000100000000))
+//@   (modifies)
+//@   (ensures empty (=> (= (len pattern) 0) (isnil result)))
+//@   (ensures len (=> (bvsgt (len pattern) 0) (= (len result) (bvmul 64 (bvsdiv (bvadd (len pattern) 63) 64)))))
+//@   (ensures content (=> (bvsgt (len pattern) 0)
+//@      (forall ((j B64)) (=> (bvult j (len result)) (= (at result j) (old (at pattern (bvurem j (len pattern))))))))))
